@@ -51,6 +51,20 @@ add("C19", "x_hist", MC, "explicit-state BFS alternating sorting calls and edits
     "Start states: all objects with <= 4 (thorough 5) members over keys {a,A,b,B,c,\"\"} with duplicates, plus nested/paired objects; alternating layers of sorting calls (SortObject cs/ci, patch test, patch generation, merge-patch generation) and the full edit alphabet: "
     "sorted permutation of the same nodes, idempotent, structural walk, and list-model agreement of every later append/insert/detach/replace/print/delete.", HIST_NOTE, "DESIGN.md §3 C19")
 
+add("C08", "x_fault", "fault_enumeration", "exhaustive single-fault enumeration: every allocation request index of every scenario refused in turn, two allocator configurations",
+    "~110 scenarios (parse entry points, all print variants on small and >256-byte trees with several prebuffers, every Create*, every Add*ToObject helper, AddItemToObject[CS] with fresh/keyed/constant-key items, AddItemReferenceTo*, Duplicate deep/with references, ReplaceItemInObject[CaseSensitive], "
+    "SetValuestring, bulk constructors n=0..3); N requests counted by a fault-free run, then request k refused for k=1..N+1 under custom hooks and under the default allocator with malloc/realloc interposed (thorough: also every request from k on). "
+    "On reported failure: ledger equals the pre-call ledger, pre-existing trees and caller-owned arguments have identical walk text, the repeated call succeeds with the fault-free result; otherwise the result equals the fault-free result.",
+    "Trusted: the allocation ledger, ASan/UBSan, structural walk. Deviation bound = 1 refused request (thorough: suffix of refused requests); scenario list is finite and stated.", "DESIGN.md §3 C08")
+add("C12", "x_compare", MC, "all ordered pairs of exhaustively enumerated trees x both case modes against reference equality",
+    "All trees with <= 3 nodes over 19 leaves (numbers 1, 1+eps, 1+2eps, 1e300 and neighbour, denormal pair, 5e-324, inf, NaN, strings, raw) and keys {a,A,b} (thorough: <= 4 nodes over a reduced alphabet), one-member objects over every single-byte key; every ordered pair x {case-sensitive, -insensitive}, "
+    "second tree in one of three ownership variants: Compare(a,b) == Compare(b,a) == model, reflexive, variants equal, NULL/invalid false, arguments unchanged.",
+    "Trusted: reference equality in the harness (relative-epsilon rule evaluated in long double; pairs the statement leaves open are not asserted).", "DESIGN.md §3 C12")
+add("C13", "x_minify", MC, "bounded exhaustive byte strings (safety, guard pages on both sides) and token x gap-filler combinations (value preservation) through cJSON_Minify",
+    "Safety: all strings up to 6 (thorough 7) bytes over the 13 bytes that steer the scanner, terminator as last accessible byte and mirrored placement. Value: token lists of all trees <= 4 nodes x 13 string-literal variants (escaped quotes/backslashes, comment look-alikes) with gaps from 12 fillers "
+    "(uniform, single gap, all combinations for short lists, thorough: pairs of gaps): result == concatenated tokens, idempotent, parses to an equal tree.",
+    "Trusted: the harness' independent token scanner; guard pages; ASan.", "DESIGN.md §3 C13")
+
 NA = [dict(property_id=p, reason="check not built yet in this revision (planned: see DESIGN.md §3); nothing is claimed for it") for p in
       ["C04","C05","C06","C07","C08","C09","C11","C12","C13","C14","C15","C16","C17","C18","C19","C20"] if p not in C]
 ENGINES = [
